@@ -65,7 +65,9 @@ void b64encode(const void * data, size_t len, Literal& b64)
 
 void b64decode(const void * b64, size_t len, TabChar& data)
 {
-  if (len == 0)
+  /* a single character cannot encode a byte, and the code below looks at the
+   * two last characters */
+  if (len < 2)
     return;
 
   const unsigned char *p = (const unsigned char*) b64;
@@ -83,11 +85,11 @@ void b64decode(const void * b64, size_t len, TabChar& data)
     data[j++] = n >> 8 & 0xFF;
     data[j++] = n & 0xFF;
   }
-  if (pad1)
+  if (pad1 && last + 1 < len)
   {
     int n = B64index[p[last]] << 18 | B64index[p[last + 1]] << 12;
     data[j++] = n >> 16 & 0xFF;
-    if (pad2)
+    if (pad2 && last + 2 < len)
     {
       n |= B64index[p[last + 2]] << 6;
       data[j++] = n >> 8 & 0xFF;
